@@ -120,7 +120,7 @@ def m_sad_counted(pre, ev, post):
     return P.m_sad(pre, ev, post)
 
 
-MONITORS = [m_sad_counted, m_clauses, m_kfault]
+MONITORS = [m_sad_counted, m_clauses, m_kfault, C.m_del]
 STATE_MONITORS = [sm_drain_sad]
 
 
